@@ -31,10 +31,10 @@ class Wire(SingleDevice):
 
     def run(self, env: Environment):
         while True:
-            packet = yield self.store.get()
+            entered, packet = yield self.store.get()
             if not self.loss_rate or random.uniform(0, 1) >= self.loss_rate:
                 # The amount of time for this packet to stay in my store
-                queued_time = self.env.now - packet.current_time
+                queued_time = self.env.now - entered
                 delay = self.delay_dist()
 
                 # If queued time for this packet is greater than its propagation delay,
@@ -61,7 +61,11 @@ class Wire(SingleDevice):
         if self.debug:
             print(f"Entered wire #{self.wire_id} at {self.env.now}: {packet}")
         packet.current_time = self.env.now
-        self.store.put(packet)
+        # the entry instant travels with the queue entry: the same Packet
+        # object may enter again (a retransmission, another branch of a hub)
+        # while this entry is still inside, and would overwrite a stamp kept
+        # on the packet
+        self.store.put((self.env.now, packet))
 
 
 class Cable:
